@@ -562,7 +562,9 @@ func (r *replayer) runNative(pkg, fn, path, kind, assertion string) (string, boo
 	if err != nil {
 		return err.Error(), false
 	}
-	cmd := exec.Command(bin, "-test.run", "^TestVerifReplay$", "-test.count=1", "-test.timeout=30s", "-test.v")
+	// address-space cap so that an unbounded-allocation counterexample ends in
+	// a clean "out of memory" fatal error instead of hurting the machine
+	cmd := exec.Command("bash", "-c", "ulimit -v 12000000; exec \"$0\" \"$@\"", bin, "-test.run", "^TestVerifReplay$", "-test.count=1", "-test.timeout=30s", "-test.v")
 	cmd.Dir = filepath.Join(repoRoot, pkg)
 	cmd.Env = append(goEnv(), "VERIF_REPLAY="+path, "VERIF_HARNESS="+fn)
 	outB, _ := cmd.CombinedOutput()
@@ -575,6 +577,8 @@ func (r *replayer) runNative(pkg, fn, path, kind, assertion string) (string, boo
 	}
 	if native == "no-outcome" {
 		switch {
+		case strings.Contains(out, "out of memory") || strings.Contains(out, "cannot allocate memory"):
+			native = "fatal out of memory"
 		case strings.Contains(out, "stack overflow"):
 			native = "fatal stack overflow"
 		case strings.Contains(out, "test timed out"):
@@ -589,6 +593,9 @@ func (r *replayer) runNative(pkg, fn, path, kind, assertion string) (string, boo
 	}
 	switch kind {
 	case "violation":
+		if assertion == "alloc-within-budget" && (native == "fatal out of memory" || strings.Contains(native, "makeslice") || strings.Contains(native, "out of range")) {
+			return native, true
+		}
 		return native, strings.HasPrefix(native, "assert-failed")
 	case "panic":
 		return native, strings.HasPrefix(native, "panic") || strings.HasPrefix(native, "assert-failed") || strings.HasPrefix(native, "fatal")
